@@ -558,6 +558,11 @@ func irrelevantAxioms(lines []string, rest []string) map[int]bool {
 			used[s] = true
 		}
 	}
+	// symbols that occur outside the axioms (the function's own state, contracts and goal), before any axiom is kept
+	usedBase := map[string]bool{}
+	for s := range used {
+		usedBase[s] = true
+	}
 	// An axiom is "about" its rarest symbols (those mentioned by the fewest axioms): blen(keccak256(b)) == 32 is about
 	// keccak256, not about blen. Only these characteristic symbols make it relevant; all its symbols count as used once
 	// it is kept.
@@ -603,8 +608,20 @@ func irrelevantAxioms(lines []string, rest []string) map[int]bool {
 					break
 				}
 			}
-			if a.def != "" && !used[a.def] {
-				rel = false
+			if a.def != "" {
+				// a definition of an abstract view matters only where the view AND the concrete state it is defined from
+				// occur in the function's own text (not merely in another axiom that was kept): otherwise eight quantified
+				// definitions ride along with every function that touches all layered views (RevertToSnapshot timed out)
+				rel = usedBase[a.def]
+				if rel {
+					rel = false
+					for _, s := range a.syms {
+						if strings.HasPrefix(s, "G!") && usedBase[s] {
+							rel = true
+							break
+						}
+					}
+				}
 			}
 			if rel {
 				kept[a.idx] = true
